@@ -234,15 +234,15 @@ PROPS = {
                            'pending_sub_misses_renewal', 'failed_tx_changes_nothing', 'changes_need_owner_or_purchase',
                            'changes_need_root_owner_partial', 'changes_need_root_owner_reachable_partial', 'stale_sub_changed_by_previous_owner',
                            'send_pays_beneficiary_keeps_registry', 'purchase_needs_sale_or_expiry', 'purchase_pays_owner_at_least_price',
-                           'expired_purchase_pays_base', 'sale_state_changes_need_owner_or_purchase', 'ownership_change_clears_sale', 'created_record_is_off_sale', 'expiry_exact_create_partial', 'sub_created_with_parent_expiry',
-                           'expiry_exact_renew_partial', 'expiry_exact_purchase_on_sale_partial', 'expiry_exact_purchase_expired_partial',
-                           'expiry_wraps_int64'],
+                           'expired_purchase_pays_base', 'sale_state_changes_need_owner_or_purchase', 'ownership_change_clears_sale', 'created_record_is_off_sale', 'expiry_exact_create', 'sub_created_with_parent_expiry',
+                           'expiry_exact_renew', 'expiry_exact_purchase_on_sale', 'expiry_exact_purchase_expired',
+                           'overlong_payment_is_refused'],
         run=run_c20, replay=replay_olh('ons'), level='proof',
         assumptions=[
             'the ONS model (OLP/Ons/Model.lean) is a hand-written port of the seven run* handlers; it is tied to the code by the `ons` engine: every DeliverTx of every generated history is re-run by the Lean model as a stateless step (decoded registry, committed-key set, balances, fee pool, options, heights, operation -> result class + full post-state) and must agree exactly',
             'DeliverTx runs Validate before the handler: the model step is Validate (signer field = address of the signing key, signature verifies, fee price >= minimum, name well-formed, payment in the chain currency, amount validity) then run*, then the fee step; signature verification itself is a boolean input (crypto is a parameter, as in C04) and the engine delivers forged-owner, wrongly signed, under-priced, non-OLT and ill-named transactions and requires their refusal on both sides (the same rules are additionally probed through CheckTx)',
             'gas metering is layer K: the used gas (or the class of a fee-step failure) observed on the implementation is an input of the model step; URI syntax (net/url.Parse + scheme list) is a boolean input computed by the harness with net/url',
-            'expiry exactness is proved under the explicit hypothesis that the quotient and the new height fit in an int64 (InInt64); outside it the code wraps (KF-C20-3)',
+            'expiry exactness is unconditional since f3370a9: blocksFor refuses a block count that does not fit an int64 together with the height it extends, so every executed create / renew / purchase writes exactly anchor + payment-part / perBlockFees (the monitor signature expiry-int64-overflow stays active)',
             'sub-names follow their parent (owner, expiry) only along histories in which every purchase / renew sees all sub-names of its target in the committed tree (histSees): the code does not iterate keys written in the current block (KF-C20-1, KF-C20-2); one-transaction-per-block histories satisfy it unconditionally',
         ],
         model_limits='balances are modelled for OLT and VT (send may pay in any registered currency); nil and empty addresses are not distinguished (a JSON null owner cannot be produced by the message types\' own Marshal); names are ASCII; the division-by-zero crash for perBlockFees = 0 (not admitted by governance validation, only by a genesis file) is in the model as Err.crash but not executed on the implementation (C18 territory); write order inside one transaction (IAVL shape) is below this abstraction (C01/C09)'),
